@@ -124,6 +124,9 @@ def rule_nolossy(ctx):
     n = 0
     bad = []
     for k, b in facts.bodies.items():
+        root = b.j.get("root", k)
+        if facts.fns.get(root, {}).get("derived") or "::_::" in k:
+            continue  # compiler-derived impls (serde derive uses from_utf8_lossy only to print an unknown variant name)
         for bb, t in b.calls(include_cleanup=True):
             ce = t["callee"]
             if "path" not in ce:
